@@ -42,6 +42,12 @@ def genuine(rng, n_generated_per_vendor: int = 3):
         out.append((f"kaifa_list1_reg_{reg:08x}_body", "Kaifa", "body", body))
         dt12, _ = dlms_gen.gen_datetime(rng)
         out.append((f"kaifa_list1_reg_{reg:08x}_frame", "Kaifa", "frame", ce.apdu(body, dt12, True)))
+    # a genuine binary message whose last octets are CR LF (Kaifa list 1, 3338 W = 0x0D0A) and one full of structural octets
+    for reg in (0x00000D0A, 0x0D0A0D0A):
+        body = ce.kaifa_value_body([ce.u32(reg)])
+        out.append((f"kaifa_list1_reg_{reg:08x}_body", "Kaifa", "body", body))
+        dt12, _ = dlms_gen.gen_datetime(rng)
+        out.append((f"kaifa_list1_reg_{reg:08x}_frame", "Kaifa", "frame", ce.apdu(body, dt12, True)))
     for i in range(2):
         out.append((f"gen_p1_block_{i}", "P1", "block", p1_block(rng)))
     return out
@@ -134,7 +140,25 @@ def ascii_fragment(rng) -> bytes:
             return f"1-0:{rng.choice(('1.7.0', '1.8.0', '32.7.0', '9.9.9'))}({v}*{unit})\r\n".encode("ascii"), "ascii"
         except UnicodeEncodeError:
             return f"1-0:1.7.0({v}*{unit})\r\n".encode("utf-8"), "ascii"
-    if r < 0.4:
+    if r < 0.3:
+        # a long run of one character class followed by one character of another class (regular expressions with nested
+        # quantifiers, recursive descent and quadratic scans only show on such input)
+        cls = rng.choice(("0123456789", "1", "9", ".", "0.", "(", ")", "*", "-", ":", "aA", " ", "\r\n", "1-0:", "(1)"))
+        n = rng.choice((25, 40, 100, 400, 1500))
+        run = "".join(rng.choice(cls) for _ in range(n)) if len(cls) > 1 and rng.random() < 0.5 else (cls * n)[:n]
+        term = rng.choice(("x", "!", "*", ")", "(", ".", "", "\r\n"))
+        unit = rng.choice(("kW", "kWh", "V", "A", "var", "kvarh", ""))
+        where = rng.choice(("value", "value", "unit", "address", "bare"))
+        if where == "value":
+            text = f"1-0:1.8.0({run}{term}*{unit})\r\n"
+        elif where == "unit":
+            text = f"1-0:1.8.0(1*{run}{term})\r\n"
+        elif where == "address":
+            text = f"{run}{term}(1*kWh)\r\n"
+        else:
+            text = run + term
+        return text.encode("ascii"), "ascii"
+    if r < 0.45:
         base = rng.choice(("1-0:1.8.0(123", "1-0:1.8.0(123)xyz", "1-0:1.8.0(1*kWh)(", "(1)(2", "1.8.0(1))", "1.8.0((1)", ")(", "1.8.0(1)\r\n2.8.0(2", "(", "1.8.0()", "a(b)c(d)e"))
         return base.encode(), "ascii"
     n = rng.choice((1, 2, 5, 12, 40, 200))
